@@ -38,6 +38,11 @@ def build_files(fp, d):
     fp.write(nometa, df.drop(columns=["p", "q", "k"]), row_group_offsets=[0, 4], write_index=False)
     fp.writer.update_file_custom_metadata(nometa, {"pandas": None})
     files["own_nometa"] = nometa
+    base = df.drop(columns=["p", "q"]).assign(ix=np.array([5, 3, 9, 1, 7, 2, 8], dtype="int64"))   # (not an arithmetic progression)
+    for nm, idx in (("own_idx", ["ix"]), ("own_tidx", ["tu"]), ("own_midx", ["ix", "u"])):
+        pth = os.path.join(d, nm + ".parquet")
+        fp.write(pth, base.set_index(idx), row_group_offsets=[0, 3, 5])
+        files[nm] = pth
     for scheme in ("hive", "drill"):
         p = os.path.join(d, scheme)
         fp.write(p, df.drop(columns=["ni", "nb"]), file_scheme=scheme, partition_on=["p", "q"], row_group_offsets=[0, 4],
@@ -154,7 +159,9 @@ def job(args):
                 out["viol"].append((dict(sig, what="prediction or read raised", exc=type(e).__name__), oi))
                 continue
             real_cols = list(df.columns)
-            idx_names = [nm for nm in df.index.names if nm is not None]
+            import pandas as pd
+            # (a range index is not a column of the file, whatever it is called)
+            idx_names = [] if isinstance(df.index, pd.RangeIndex) else [nm for nm in df.index.names if nm is not None]
             want_cols = [c for c in pred_cols if c not in (pred_index or [])]
             if real_cols != want_cols:
                 out["viol"].append((dict(sig, what="column names or order differ from the prediction"), oi))
